@@ -406,7 +406,8 @@ fn apply_content_edits_with_content(
 
     for (before, after, start, end) in replacements.iter().rev() {
         // Validate the replacement matches expected content
-        let actual = &original_content[*start..*end];
+        // A stale plan may point past the end of the file or into the middle of a character
+        let actual = original_content.get(*start..*end).unwrap_or("<out of range>");
         if actual != before {
             return Err(anyhow!(
                 "Content mismatch in {}: expected '{}', found '{}'",
